@@ -37,6 +37,7 @@ type FaultSpec struct {
 	Action string `json:"action,omitempty"` // error short halt-before halt-after short-halt
 	Errno  string `json:"errno,omitempty"`
 	Frac   int    `json:"frac,omitempty"` // short writes: permille of the transfer delivered
+	Grown  bool   `json:"grown,omitempty"` // ... and the source (a reader) has changed and grown between the hashing pass and the copying pass
 	// reader faults
 	RKind string `json:"rkind,omitempty"` // seek-error read-error early-eof flip longer eof-with-data
 	Pass  int    `json:"pass,omitempty"`
@@ -65,7 +66,7 @@ type Plan struct {
 const nIDs = 3
 
 var actions = []string{"error", "short", "halt-before", "halt-after", "short-halt"}
-var rkinds = []string{"seek-error", "read-error", "early-eof", "flip", "longer", "eof-with-data"}
+var rkinds = []string{"seek-error", "read-error", "early-eof", "flip", "longer", "eof-with-data", "flip-onward"}
 
 func genPlan(t *rapid.T, tier string) any {
 	p := &Plan{}
@@ -108,6 +109,11 @@ func genPlan(t *rapid.T, tier string) any {
 		f.Action = rapid.SampledFrom(actions).Draw(t, "action")
 		f.Errno = rapid.SampledFrom([]string{"EIO", "ENOSPC", "EDQUOT"}).Draw(t, "errno")
 		f.Frac = rapid.SampledFrom([]int{0, 1, 250, 500, 700, 800, 900, 999}).Draw(t, "frac")
+		if rapid.IntRange(0, 5).Draw(t, "grown") == 0 {
+			f.Grown = true
+			p.Via = "reader"
+			f.Off = rapid.IntRange(0, 70000).Draw(t, "grownoff")
+		}
 	default:
 		f.Kind = "reader"
 		p.Via = "reader"
@@ -138,6 +144,7 @@ type env struct {
 	readable []bool // id was readable exactly (GetBytes) just before the target Put
 	proc     int
 	lastProc int // the simulated process of the latest target Put
+	twoFaults bool // the attempt being verified combined a file-operation fault with a changed source
 }
 
 // verifyAll applies the safety clauses of the statement to every id.
@@ -169,6 +176,12 @@ func (e *env) verifyAll(c *cache.Cache, when string, checkUnrelated bool) {
 		if p.Companion && i == (p.Target.ID+1)%nIDs {
 			continue // legitimately overwritten by the companion writer
 		}
+		if e.twoFaults && e.before[i] >= 0 && e.outIDs[e.before[i]] == targetOut {
+			// The statement quantifies over single faults. With two at once - the Put could not inspect the output
+			// file that is already there, and its source changed under it - the file it has to rewrite is the one
+			// this entry shares with it; such an entry is not unrelated to that Put. (Everything else is asserted.)
+			continue
+		}
 		if checkUnrelated && i != p.Target.ID && e.before[i] >= 0 && e.readable[i] {
 			if err != nil || !bytes.Equal(data, e.contents[e.before[i]]) {
 				same := ""
@@ -185,6 +198,7 @@ type attempt struct {
 	opFault *simos.Fault
 	reader  *cachekit.ChunkReader
 	label   string
+	two     bool                        // two faults at once: a file-operation fault and a source that changed
 	proc    int                         // >0: run in this (existing) simulated process instead of a fresh one
 	remake  func() *cachekit.ChunkReader // a fresh source reader with the same fault, for repeating the attempt
 }
@@ -291,7 +305,8 @@ func (e *env) reader(spec *FaultSpec, m int) *cachekit.ChunkReader {
 		if size > 0 {
 			r.EOFShort = spec.Off%size + 1
 		}
-	case "flip":
+	case "flip", "flip-onward":
+		r.FlipOnward = spec.RKind == "flip-onward"
 		r.FlipAtPass = spec.Pass
 		if size > 0 {
 			switch spec.Call % 4 {
@@ -305,6 +320,14 @@ func (e *env) reader(spec *FaultSpec, m int) *cachekit.ChunkReader {
 				r.FlipOff = spec.Off % size
 			}
 		}
+	case "grown":
+		// the file was rewritten and is longer by the time it is copied
+		r.FlipAtPass, r.FlipOnward = 2, true
+		if size > 0 {
+			r.FlipOff = spec.Off % size
+		}
+		r.ExtraPass = 2
+		r.ExtraBytes = spec.Off%100 + 1
 	case "longer":
 		r.ExtraPass = spec.Pass
 		r.ExtraBytes = spec.Off%100 + 1
@@ -447,6 +470,13 @@ func run(t *testing.T, plan any, keep bool) *simcheck.Outcome {
 			}
 			return a
 		}
+		grown := func(a attempt, off int) attempt {
+			sp := FaultSpec{Kind: "reader", RKind: "grown", Off: off}
+			a.reader = e.reader(&sp, m)
+			a.label += " with a source that changed and grew"
+			a.two = true
+			return a
+		}
 		if p.All {
 			for k := 0; k < n; k++ {
 				for _, act := range actions {
@@ -454,6 +484,9 @@ func run(t *testing.T, plan any, keep bool) *simcheck.Outcome {
 						continue
 					}
 					atts = append(atts, mkOp(k, act, "EIO", 500))
+					if p.Via == "reader" && (act == "halt-before" || act == "halt-after") {
+						atts = append(atts, grown(mkOp(k, act, "EIO", 500), p.Fault.Off+k))
+					}
 				}
 			}
 			if p.Via == "reader" {
@@ -463,7 +496,7 @@ func run(t *testing.T, plan any, keep bool) *simcheck.Outcome {
 							spec := FaultSpec{Kind: "reader", RKind: rk, Pass: pass, Call: call, Off: p.Fault.Off + 7*call}
 							sp := spec
 							atts = append(atts, attempt{reader: e.reader(&sp, m), label: fmt.Sprintf("reader %s pass %d call %d", rk, pass, call), remake: func() *cachekit.ChunkReader { return e.reader(&sp, m) }})
-							if rk != "read-error" && rk != "flip" {
+							if rk != "read-error" && rk != "flip" && rk != "flip-onward" {
 								break
 							}
 						}
@@ -471,7 +504,11 @@ func run(t *testing.T, plan any, keep bool) *simcheck.Outcome {
 				}
 			}
 		} else if p.Fault.Kind == "op" {
-			atts = append(atts, mkOp(p.Fault.K, p.Fault.Action, p.Fault.Errno, p.Fault.Frac))
+			a := mkOp(p.Fault.K, p.Fault.Action, p.Fault.Errno, p.Fault.Frac)
+			if p.Fault.Grown && p.Via == "reader" {
+				a = grown(a, p.Fault.Off)
+			}
+			atts = append(atts, a)
 		} else if p.Fault.Kind == "reader" {
 			atts = append(atts, attempt{reader: e.reader(&p.Fault, m), label: fmt.Sprintf("reader %s pass %d", p.Fault.RKind, p.Fault.Pass), remake: func() *cachekit.ChunkReader { return e.reader(&p.Fault, m) }})
 		}
@@ -526,7 +563,9 @@ func run(t *testing.T, plan any, keep bool) *simcheck.Outcome {
 				return
 			}
 			when := "after " + a.label
+			e.twoFaults = a.two
 			e.verifyAll(c2, when, true)
+			e.twoFaults = false
 			if finished && perr == nil && p.PreDamage == "" && a.opFault != nil {
 				// acknowledged: must read back exactly
 				if data, _, err := c2.GetBytes(cachekit.ActionID(p.Target.ID)); err != nil || !bytes.Equal(data, tdata) {
@@ -585,8 +624,8 @@ var harness = &simcheck.Harness{
 	Level:    "fault_enumeration",
 	Rule: "a scenario shape (0-3 prior Puts, 0 hours to 400 days of simulated time between them and the target Put, target id/content, optional pre-damage of the target's output file (same size / shorter / longer / shorter with wrong bytes) or an output that was trimmed away while index entries still name it, PutBytes, Put or PutNoVerify of a chunking ReadSeeker with Len, optionally a healthy companion process storing the same content) is drawn by rapid; a fault-free dry run " +
 		"counts the N file operations and M reader calls of the target Put; then one fault is injected (operation k fails / writes short and fails / process halts before / after / in the middle of it; " +
-		"or the reader fails to seek, fails mid-read, ends early, flips a byte in one pass, grows in one pass, returns data with EOF), or - thorough, a tenth of the shapes - the whole " +
-		"(operation x action) and reader fault space of the shape is executed to completion; every attempt starts from the same rewound disk state; thorough adds a concurrent reader process; " +
+		"or the reader fails to seek, fails mid-read, ends early, flips a byte in one pass or from one pass onward, grows in one pass, returns data with EOF; or a file-operation fault meets a source that changed and grew between the passes), or - thorough, a tenth of the shapes - the whole " +
+		"(operation x action), (halt x changed-and-grown source) and reader fault space of the shape is executed to completion; every attempt starts from the same rewound disk state; thorough adds a concurrent reader process; " +
 		"non-trivial = the fault fired; distinct by decision-trace hash",
 	Gen:     genPlan,
 	NewPlan: func() any { return &Plan{} },
